@@ -394,6 +394,10 @@ class Exec(StmtMixin, CallMixin):
             return bor(*[val_eq(item, x, self.spec) for x in container.items])
         if isinstance(container, dict):
             return bor(*[val_eq(item, x, self.spec) for x in container.keys()])
+        if isinstance(container, str) and isinstance(item, str):
+            return item in container
+        if isinstance(container, (set, frozenset)) and isinstance(item, (str, int)):
+            return item in container
         raise Unsupported("in on %r" % type(container))
 
     def e_IfExp(self, n, st):
